@@ -1,6 +1,7 @@
 package main
 
 import (
+	"math"
 	"bytes"
 	"fmt"
 	"sort"
@@ -269,6 +270,11 @@ func runC04Corr(c *Ctx) {
 			ob.WriteString(Pick(r, []string{" ", "\n", "%c\n"}))
 			ob.WriteString("<<")
 			declared := Pick(r, []int{len(body), len(body), len(body) - 1, len(body) + 1, len(body) + 2, 0, 3, -1, 100000})
+			if r.P(1, 6) {
+				// bfd427f: lengths whose end is at, just below or beyond the largest int64
+				// (the data starts 20..60 bytes into these inputs)
+				declared = Pick(r, []int{math.MaxInt64, math.MaxInt64 - 1, math.MaxInt64 - 20 - r.Intn(60), math.MaxInt64 - 20 - r.Intn(60), 1 << 62})
+			}
 			switch r.Intn(4) {
 			case 0:
 			case 1:
